@@ -104,7 +104,7 @@ def run(ctx):
         modes = ['C', 'N', 'C', 'N'] if haspos else ['A'] * 4
         minp.append('MIX %d %d %s' % (i, len(els), ' '.join('%d %d' % (e[1], e[2]) for e in els)))
         minp.append('TARGETS %d %s' % (i, task))
-        for (mi, k, when) in sorted(x for x in TOT if x[0] == i and x[3] == 0):
+        for (mi, k, when) in sorted(set(x[:3] for x in TOT if x[0] == i)):
             T = 1 if (task == 'N' or k == 1) else k     # realizeTopology forces one thread for the non-parallel task; one thread = sequential path
             minp.append('SEQ %d %s %d %s | %s' % (i, task, T, ' '.join(modes), ' | '.join(random_round(rng, T, n) for _ in range(4))))
             plan.append((i, k, when, T, modes))
